@@ -534,7 +534,13 @@ class C17(Check):
             if uses_slot:
                 lp = last_parse[s["slot"]]
                 chain.extend(lp.get("_pre", []))
-                chain.append({k: v for k, v in lp.items() if k != "_pre"})
+                chain.append({k: v for k, v in lp.items() if k not in ("_pre", "_nsd_pos")})
+                if "_nsd_pos" in lp:
+                    # the parsed object keeps the caller's named-schema dictionary by reference, and later parse calls
+                    # that were handed the same dictionary have legitimately filled it further: they are part of the
+                    # state of the argument, so the fresh interpreter repeats them (into a slot nobody reads)
+                    for later in nsd_hist.get(lp["nsd"], [])[lp["_nsd_pos"] + 1:]:
+                        chain.append(dict(copy.deepcopy(later), slot=("unused", len(chain))))
             elif "nsd" in call:
                 # the caller's dictionary is an argument: its contents come from the earlier parse calls that received it
                 chain.extend(copy.deepcopy(nsd_hist.get(call["nsd"], [])))
@@ -547,6 +553,7 @@ class C17(Check):
                 lp = copy.deepcopy({k: v for k, v in call.items()})
                 if "nsd" in call:
                     lp["_pre"] = copy.deepcopy(nsd_hist.get(call["nsd"], []))
+                    lp["_nsd_pos"] = len(nsd_hist.get(call["nsd"], []))
                 last_parse[call["slot"]] = lp
             elif call["op"] == "parse":
                 slots.pop(call["slot"], None)
